@@ -59,8 +59,8 @@ CLAIMED = {
     ),
     "C11": (
         "§6 C11",
-        "Lean 4 theorems (frozen-mapping eq/hash order-free, eq implies hash-eq from the regenerated attrs eq flags, copying constructors isolate the object under any later mutation sequence, aliasing ones do not) + exhaustive run-time tie class x field x channel",
-        "Machine-checked Lean 4 theorems over a model of value semantics: frozen mappings with the same items are equal and hash equally whatever the insertion order; attrs-generated equality implies equal hashes because both range over the same eq fields (flags regenerated from the live classes); in a store model of object identity, an object built by a COPYING constructor observes the same items after any sequence of mutations of containers the caller can reach, whereas an aliasing constructor does not. PARTIAL: 'assigning or deleting an attribute or item raises' is a fact about CPython/attrs that no model of ours can exhibit; it is carried by the run-time tie, which is exhaustive in the finite dimensions: every class (18 model classes, 3 SWHID classes, ImmutableDict) x every attrs field x setattr/delattr/mutating methods, and later mutation of every container passed to a constructor or inside a from_dict argument (top level and nested), observing dictionary form, id, recomputed hash, equality and hash before and after.",
+        "Lean 4 theorems (frozen-mapping eq/hash order-free, eq implies hash-eq from the regenerated attrs eq flags, copying constructors isolate the object under any later mutation sequence, aliasing ones do not; invariant proof over operation histories on a heap model of ImmutableDict: no interleaving of caller mutations, the three constructor routes, copy_pop and lookups changes any frozen mapping) + exhaustive run-time tie class x field x channel + history correspondence",
+        "Machine-checked Lean 4 theorems over a model of value semantics: frozen mappings with the same items are equal and hash equally whatever the insertion order; attrs-generated equality implies equal hashes because both range over the same eq fields (flags regenerated from the live classes); in a store model of object identity, an object built by a COPYING constructor observes the same items after any sequence of mutations of containers the caller can reach, whereas an aliasing constructor does not; on a heap model of ImmutableDict (dictionaries and mutable lists at locations, private allocations of the library, the three constructor routes incl. sharing of the private dictionary between mappings, copy_pop, lookups, seven kinds of caller mutation) an invariant proved by induction gives, for every history in any interleaving and every mapping built so far, that its resolved content never changes (frozen_never_changes), with the constructors and copy_pop characterised exactly and the shallow/aliasing/shared-pop variants proved NOT frozen by explicit witness histories; generated histories are run on the real class and compared step by step with the model. PARTIAL: 'assigning or deleting an attribute or item raises' is a fact about CPython/attrs that no model of ours can exhibit; it is carried by the run-time tie, which is exhaustive in the finite dimensions: every class (18 model classes, 3 SWHID classes, ImmutableDict) x every attrs field x setattr/delattr/mutating methods, and later mutation of every container passed to a constructor or inside a from_dict argument (top level and nested), observing dictionary form, id, recomputed hash, equality and hash before and after.",
         NOTE + " CPython object protocol and attrs are trusted; hash coherence is claimed where hash() is defined.",
     ),
     "C12": (
